@@ -138,6 +138,26 @@ class JsonList(SAny):
         return list
 
 
+class FlowJson(SAny):
+    """an arbitrary JSON scalar OR None that the code under verification may only pass along: any decision on it
+    (truthiness, ==, `is`) is reported as unsupported instead of being answered (sound for flow-only attributes)"""
+
+    def truth(self):
+        raise Unsupported(f"decision on the flow-only value {self.z}")
+
+    def __eq__(self, o):
+        if o is self:
+            return True
+        raise Unsupported(f"comparison of the flow-only value {self.z}")
+
+    def __ne__(self, o):
+        if o is self:
+            return False
+        raise Unsupported(f"comparison of the flow-only value {self.z}")
+
+    __hash__ = SAny.__hash__
+
+
 # --------------------------------------------------------------------------------------
 # JSON / YAML transport
 # --------------------------------------------------------------------------------------
@@ -145,7 +165,7 @@ class JsonList(SAny):
 
 def json_kind(v):
     """'scalar' | 'list' | 'dict' | None (not representable)"""
-    if v is None or isinstance(v, (bool, int, float, str, SBool, SNum, SStr, TsText, JsonList)):
+    if v is None or isinstance(v, (bool, int, float, str, SBool, SNum, SStr, TsText, JsonList, FlowJson)):
         return "scalar"
     if isinstance(v, (list, tuple, ListObj)):
         return "list"
@@ -254,6 +274,14 @@ def install(I):
     # concrete execution of the dtype engine (real pandera code, concrete arguments only)
     from ..interp import is_concrete
 
+    orig_is = I.is_
+
+    def is_(a, b):
+        if (isinstance(a, FlowJson) or isinstance(b, FlowJson)) and a is not b:
+            raise Unsupported("identity test on a flow-only value")
+        return orig_is(a, b)
+
+    I.is_ = is_
     orig_call = I.call
 
     def call(fn, args=(), kwargs=None):
